@@ -15,6 +15,9 @@ type Block struct {
 	Informal []bool   `json:"informal,omitempty"` // per cond: render as informal expression (always true)
 	Langs    []string `json:"langs,omitempty"`    // per cond: explicit language attribute ("" = definitions default)
 	Def      int      `json:"def"`                // xor/inc: index of the kid reached by the default flow, -1 none
+	// DefCond: the default flow carries its kid's condition in the document
+	// (legal; BPMN: a condition on a default flow is ignored)
+	DefCond bool `json:"defCond,omitempty"`
 	Order    []int    `json:"order,omitempty"`    // xor/inc/ctask: permutation giving the <outgoing> listing order
 	TaskKind string   `json:"taskKind,omitempty"`
 	Results  []string `json:"results,omitempty"` // task: declared result names
@@ -202,7 +205,7 @@ func (lw *Lowered) lower(b *B, blk *Block) (entry *Node, exit *port) {
 			}
 			isDef := blk.K != "par" && blk.Def == i
 			from := &port{node: split, asDefault: isDef}
-			if isDef {
+			if isDef && !blk.DefCond {
 				cond = nil
 			}
 			if brs[i].e == nil {
@@ -501,6 +504,7 @@ func (c *genCtx) block(t *rapid.T, depth int, mayEnd bool, allowMM bool) *Block 
 		}
 		c.branchConds(t, blk, nb)
 		blk.Def = rapid.IntRange(-1, nb-1).Draw(t, "xorDefault")
+		blk.DefCond = blk.Def >= 0 && rapid.IntRange(0, 2).Draw(t, "defaultFlowHasCondition") == 0
 		return blk
 	case "inc":
 		c.budget -= 2
@@ -517,6 +521,7 @@ func (c *genCtx) block(t *rapid.T, depth int, mayEnd bool, allowMM bool) *Block 
 		c.underInc, c.underFork = save.underInc, save.underFork
 		c.branchConds(t, blk, nb)
 		blk.Def = rapid.IntRange(-1, nb-1).Draw(t, "incDefault")
+		blk.DefCond = blk.Def >= 0 && rapid.IntRange(0, 2).Draw(t, "defaultFlowHasCondition") == 0
 		return blk
 	case "par":
 		c.budget -= 2
